@@ -53,7 +53,7 @@ TFinalise == StepB(Is("Finalise") /\ InTx /\ s' = Finalise(s) /\ Logged
 TEndBlock == Step(Is("EndBlock") /\ ~InTx /\ CheckBAL /\ UNCHANGED s /\ Logged
                   /\ EncodingMatches(blk, Ev.blk, s.txn + 1))
 (* Ev.ok includes: the real root equals the StackTrie root of the logged world, which is the model's world *)
-TIRoot    == Step(Is("IntermediateRoot") /\ InTx /\ ~CheckBAL /\ s' = Finalise(s) /\ Logged)
+TIRoot    == Step(Is("IntermediateRoot") /\ InTx /\ ~CheckBAL /\ s' = IntermediateRoot(s) /\ Logged)
 
 TraceInit == s = Open(RulesPre158, EmptyWorld) /\ blk = EmptyBlock /\ l = 1
 TraceNext == \/ TReset \/ TBeginTx \/ TBeginTxL \/ TAddBal \/ TSubBal \/ TSetBal \/ TSetNonce \/ TSetCode \/ TSetState
